@@ -31,21 +31,21 @@ type Violation struct {
 
 // Result is what one worker process reports.
 type Result struct {
-	Property     string           `json:"property"`
-	Phase        string           `json:"phase"`
-	Tier         string           `json:"tier"`
-	Seed         int64            `json:"seed"`
-	Shard        int              `json:"shard"`
-	Shards       int              `json:"shards"`
-	Evaluations  int64            `json:"evaluations"`
-	Nontrivial   []string         `json:"nontrivial"`
-	Samples      []interface{}    `json:"samples"`
-	Violations   []Violation      `json:"violations"`
-	Inconclusive []string         `json:"inconclusive"`
-	Counters     map[string]int64 `json:"counters"`
+	Property     string              `json:"property"`
+	Phase        string              `json:"phase"`
+	Tier         string              `json:"tier"`
+	Seed         int64               `json:"seed"`
+	Shard        int                 `json:"shard"`
+	Shards       int                 `json:"shards"`
+	Evaluations  int64               `json:"evaluations"`
+	Nontrivial   []string            `json:"nontrivial"`
+	Samples      []interface{}       `json:"samples"`
+	Violations   []Violation         `json:"violations"`
+	Inconclusive []string            `json:"inconclusive"`
+	Counters     map[string]int64    `json:"counters"`
 	Sets         map[string][]string `json:"sets"`
-	Done         bool             `json:"done"`
-	WallS        float64          `json:"wall_s"`
+	Done         bool                `json:"done"`
+	WallS        float64             `json:"wall_s"`
 }
 
 // Run is the per-process handle.
@@ -118,8 +118,16 @@ func (r *Run) N(quick, thorough int) int {
 	return quick
 }
 
-// Mine reports whether case index i belongs to this shard.
-func (r *Run) Mine(i int) bool { return i%r.Shards == r.Shard }
+// Mine reports whether case index i belongs to this shard. VERIF_ONLY=<i>
+// (debugging) restricts the run to one case index.
+func (r *Run) Mine(i int) bool {
+	if s := os.Getenv("VERIF_ONLY"); s != "" {
+		if v, err := strconv.Atoi(s); err == nil {
+			return i == v && r.Shard == 0
+		}
+	}
+	return i%r.Shards == r.Shard
+}
 
 // Rand returns a PRNG for (seed, stream, index): every case has its own
 // generator so a replay needs only the three numbers.
